@@ -14,6 +14,7 @@ structure CharOps where
   isNumeric : Char → Bool    -- char::is_numeric
   strLower : Str → Str       -- str::to_lowercase
   strUpper : Str → Str       -- str::to_uppercase
+  escDebug : Char → Str := fun c => [c]   -- how `{:?}` of a `str` writes the character (`char::escape_debug_ext`)
 
 inductive Rule where
   | lower | upper | camel | snake | pascal | screamingSnake | kebab | screamingKebab
@@ -124,14 +125,39 @@ def toTsIdent (ident : Str) : Str :=
 
 /-- `raw_name_to_ts_field` (utils.rs:123-140) -/
 def validName (ops : CharOps) (value : Str) : Bool :=
-  let validChars := value.all fun c => ops.isAlnum c || c = '_' || c = '$'
+  let validChars := !value.isEmpty && value.all fun c => ops.isAlnum c || c = '_' || c = '$'
   let noDigitFirst := match value with
     | [] => true
     | c :: _ => !ops.isNumeric c
   validChars && noDigitFirst
 
+def hexDigit (n : Nat) : Char := if n < 10 then Char.ofNat ('0'.toNat + n) else Char.ofNat ('a'.toNat + (n - 10))
+
+def hexOf : Nat → Nat → Str
+  | 0, _ => []
+  | f + 1, n => if n < 16 then [hexDigit n] else hexOf f (n / 16) ++ [hexDigit (n % 16)]
+
+/-- `{:?}` of a `str`, per character, on ASCII: quotes, backslashes and control characters are escaped -/
+def asciiEscDebug (c : Char) : Str :=
+  if c = '"' then ['\\', '"'] else if c = '\\' then ['\\', '\\']
+  else if c = '\n' then ['\\', 'n'] else if c = '\r' then ['\\', 'r'] else if c = '\t' then ['\\', 't']
+  else if c.toNat = 0 then ['\\', '0']
+  else if c.toNat < 32 || c.toNat = 127 then ['\\', 'u', '{'] ++ hexOf 8 c.toNat ++ ['}']
+  else [c]
+
+/-- `string_literal` (ts-rs/src/lib.rs, macros/src/utils.rs): `{:?}` spells NUL `\0`, which JavaScript would read
+as an octal escape when a digit follows; it is written `\x00` -/
+def jsEsc (e : Str) : Str :=
+  match e with
+  | ['\\', '0'] => ['\\', 'x', '0', '0']
+  | e => e
+
+/-- `string_literal(s)`: a TypeScript string literal -/
+def quoteStr (ops : CharOps) (s : Str) : Str := '"' :: (s.map fun c => jsEsc (ops.escDebug c)).flatten ++ ['"']
+
+/-- `raw_name_to_ts_field` (utils.rs): an identifier-like name as it is, anything else (and the empty name) as a string literal -/
 def rawNameToTsField (ops : CharOps) (value : Str) : Str :=
-  if validName ops value then value else ['"'] ++ value ++ ['"']
+  if validName ops value then value else quoteStr ops value
 
 /-- ASCII instance of `CharOps` (what Rust's tables give on ASCII input) -/
 def asciiOps : CharOps where
@@ -140,6 +166,7 @@ def asciiOps : CharOps where
   isNumeric := fun c => '0'.toNat ≤ c.toNat && c.toNat ≤ '9'.toNat
   strLower := mapLower
   strUpper := mapUpper
+  escDebug := asciiEscDebug
 
 def ruleOfName : String → Option Rule
   | "Lower" => some .lower | "Upper" => some .upper | "Camel" => some .camel | "Snake" => some .snake
